@@ -693,6 +693,43 @@ def f_generator_consumers():
             dict((c, a) for a, b, c in _gen3(9)), min(_gen3(2), key=lambda t: t[1]), len(set(_gen3(9))), any(x[0] == 0 for x in _gen3(9)))
 
 
+def _classify(x):
+    match x:
+        case slice(start=a, stop=b):
+            return ('slice', a, b)
+        case bool():
+            return 'bool'
+        case int() | float() as num if num > 100:
+            return ('big', num)
+        case int(n):
+            return ('int', n)
+        case 'a' | 'b':
+            return 'ab'
+        case str():
+            return 'str'
+        case []:
+            return 'empty'
+        case [first, *rest] if rest:
+            return ('seq', first, rest)
+        case (only,):
+            return ('one', only)
+        case {'k': v, **others}:
+            return ('map', v, sorted(others))
+        case None:
+            return 'none'
+        case _Rec(h=hh, d=0):
+            return ('rec0', hh)
+        case _Rec(hh, dd):
+            return ('rec', hh, dd)
+        case _:
+            return 'other'
+
+
+def f_match_statement():
+    return [_classify(v) for v in (slice(1, 5), slice(None, 3), True, 5, 500, 2.5, 'a', 'zz', [], [1, 2, 3], (9,), {'k': 1, 'z': 2}, {'q': 1}, None, b'xy',
+                                   _Rec(b'q', 0), _Rec(b'q', 4))]
+
+
 def f_str_bits():
     s = bin(0b101101)[2:]
     return s, s.zfill(8), int(s[::-1], 2), s.count('1'), s.rfind('1'), s[:3] + '0' * 2, '{:08b}'.format(5), f'{5:08b}'[-3:], ''.join('1' if c == '0' else '0' for c in s)
